@@ -19,13 +19,6 @@ type boolCase struct {
 	Decoded                    map[string]interface{} `json:"impl_decoded,omitempty"`
 }
 
-func optBools(v []bool, ok bool) string {
-	if !ok {
-		return "None"
-	}
-	return vh.Some(vh.Bools(v))
-}
-
 func boolScalarDecode(b []byte, limit int) ([]bool, bool) {
 	var d tsm1.BooleanDecoder
 	d.SetBytes(b)
@@ -82,8 +75,9 @@ func runBool(w *vh.W, c *jcase) {
 	put("batch_dec(scalar_enc)", s.DBS, s.DBSOK)
 	put("scalar_dec(batch_enc)", s.DSB, s.DSBOK)
 	put("batch_dec(batch_enc)", s.DBB, s.DBBOK)
-	t := fmt.Sprintf("CBool %s %s %s %s %s %s %s", vh.Bools(s.Vals), optBytes(s.SB, s.SBOK), optBytes(s.BB, s.BBOK),
-		optBools(s.DSS, s.DSSOK), optBools(s.DBS, s.DBSOK), optBools(s.DSB, s.DSBOK), optBools(s.DBB, s.DBBOK))
+	var l lets
+	t := l.wrap(fmt.Sprintf("CBool %s %s %s %s %s %s %s", l.bools(s.Vals), l.optBytes(s.SB, s.SBOK), l.optBytes(s.BB, s.BBOK),
+		l.optBools(s.DSS, s.DSSOK), l.optBools(s.DBS, s.DBSOK), l.optBools(s.DSB, s.DSBOK), l.optBools(s.DBB, s.DBBOK)))
 	w.Add(t, c, len(s.Vals) >= 2, "")
 	w.Count("kind", "bool")
 	w.Count("bool.len", lenClass(len(s.Vals)))
